@@ -13,7 +13,7 @@ SeedPos == 6 + ((Seed * 17) % 249)
 Pos8  == IF Tier = "quick" THEN {5, 255, SeedPos} ELSE 5 .. 255
 Win16 == IF Tier = "quick" THEN {0, 1, 3, 4, 14, 15} ELSE 0 .. 15
 Win8  == IF Tier = "quick" THEN {0, 1, 7, 8, 30, 31} ELSE {0, 1, 2, 7, 8, 9, 15, 16, 23, 24, 30, 31}
-Chains == {0, 1, 2, 5}
+Chains == {0, 1, 2, 4, 5, 8, 9, 16}        \* 4, 8, 16: all-ones 64-bit limbs (16-bit, 8-bit windows, two limbs) under an incoming carry
 DigitCases ==
   {[Blank EXCEPT !.kind = "digit", !.pos = p, !.win = w, !.digit = d, !.chain = c, !.rest = r] : p \in Pos16, w \in Win16, d \in Digits, c \in Chains, r \in {"zero", "rnd"}}
   \cup {[Blank EXCEPT !.kind = "digit", !.pos = p, !.win = w, !.digit = d, !.chain = c, !.rest = r] : p \in Pos8, w \in Win8, d \in Digits, c \in Chains, r \in {"zero", "rnd"}}
